@@ -25,8 +25,9 @@ RULE = ('(prefix P, concurrent set S) drawn from 6 prefixes x all pairs (and sam
         'non-trivial when a switch happened between the first and last datastore call of some thread; distinct = hash of '
         '(P, S, backend, schedule string).')
 ASSUMPTIONS = [
-    'yield points: entry of every datastore method and every acquisition of the servicer lock tables; a single datastore '
-    'call stays atomic (the datastore keeps its own real lock), as in production',
+    'yield points: every acquisition of the servicer lock tables and of the datastore\'s own lock (one per datastore '
+    'method on the unchanged tree, i.e. entry of every datastore method; a method that released and re-acquired the lock '
+    'would be interleaved there)',
     'serial outcomes are computed by running the real servicer sequentially, so the oracle only demands serialisability, '
     'not any particular sequential behaviour (that is C01)',
     'the early-stopping boolean is masked; trial ids created during the run are compared up to a bijection',
@@ -84,6 +85,7 @@ MENU = {
     'SetInactive': {'op': 'SetStudyState', 'study': STUDY, 'state': 'INACTIVE'},
     'SetCompleted': {'op': 'SetStudyState', 'study': STUDY, 'state': 'COMPLETED'},
     'CreateStudy': dict(CREATE),
+    'CreateStudyOther': {'op': 'CreateStudy', 'owner': 'o', 'display': 's2', 'algo': 'VVSTUB'},
     'CreateStudyB': {'op': 'CreateStudy', 'owner': 'o', 'display': 's', 'algo': 'VVSTUB',
                      'metrics': [['obj', 'MINIMIZE']]},
     'EarlyStop1': {'op': 'CheckTrialEarlyStoppingState', 'trial': T(1)},
@@ -96,7 +98,7 @@ def all_combos():
   combos = []
   for p in sorted(PREFIXES):
     if p == 'no_study':
-      pool = ['CreateStudy', 'CreateStudyB', 'Suggest_w1', 'CreateTrial', 'MetaStudy', 'DeleteStudy']
+      pool = ['CreateStudy', 'CreateStudyB', 'CreateStudyOther', 'Suggest_w1', 'CreateTrial', 'MetaStudy', 'DeleteStudy']
     elif p == 'empty':
       pool = [n for n in names if not n.endswith('1') and not n.endswith('1b') and n not in ('Delete2', 'MetaTrial2', 'MetaTrial1', 'EarlyStop1')]
     else:
@@ -186,8 +188,11 @@ def run_controlled(backend, pname, names, prefix_choices, rng=None):
   sv, ctl, mon = fresh(backend, pname)
   before_ids = trial_ids(sv)
   sch = sched_lib.Scheduler(prefix_choices, rng)
-  sched_lib.install(sv, sch)
-  sv.datastore._yield = sch.yield_point
+  fine = sched_lib.install(sv, sch)
+  # yield points: with a scheduler-visible datastore lock every acquisition of it
+  # yields (finer than, and including, "entry of every datastore method")
+  sv.datastore._yield = None if fine else sch.yield_point
+  mon.lock = sched_lib.NoLock()
   calls = [MENU[n] for n in names]
 
   def mk(i, call):
